@@ -36,6 +36,12 @@ def validPropsC (recur : Ty → Json → Bool) (props : List (Name × Bool × Ty
     | some v => recur p.2.2 v
     | Option.none => p.2.1)
 
+/-- the property list of an `and` type: the flattened properties of the referenced structures, in order -/
+def andProps (M : Model) (ts : List Ty) : List (Name × Bool × Ty) :=
+  ts.flatMap (fun a => match a with
+    | .ref r => (match M.findStruct r with | some s => propsOf (flatten M s) | Option.none => [])
+    | _ => [])
+
 def validTyC (M : Model) : Nat → Ty → Json → Bool
   | 0, _, _ => false
   | n + 1, t, j =>
@@ -63,7 +69,10 @@ def validTyC (M : Model) : Nat → Ty → Json → Bool
       | .arr xs => xs.length == ts.length && (ts.zip xs).all (fun p => validTyC M n p.1 p.2)
       | _ => false)
     | .or ts => ts.any (fun a => validTyC M n a j)
-    | .and _ => false                       -- not used for values in the committed metamodel; outside the theorem
+    | .and ts =>
+      (match j with
+       | .obj kvs => validPropsC (validTyC M n) (andProps M ts) kvs
+       | _ => false)
     | .lit props =>
       (match j with
        | .obj kvs => if props.isEmpty then true else validPropsC (validTyC M n) props kvs
@@ -78,59 +87,7 @@ def Json.wfF : Nat → Json → Bool
     | .obj kvs => keysNodup kvs && kvs.all (fun kv => Json.wfF n kv.2)
     | _ => true
 
-/-! ### coverage of a metamodel type by an annotation -/
-
-def alts : PyTy → List PyTy
-  | .union us => us
-  | t => [t]
-
-def hasAlt (bad : List PyTy) (A t : PyTy) : Bool := !(isBad bad t) && (alts A).any (PyTy.eqb t)
-
-def Base.mapped : Base → Bool
-  | .regExp => false
-  | _ => true
-
-def enumCovered (M : Model) (E : Env) (r : Name) : Bool :=
-  match M.findEnum r, E.pkg.findEnum r with
-  | some e, some pe => e.values.all (fun ev => pe.members.any (·.2 == ev.value))
-  | _, _ => false
-
-def annOK (M : Model) (E : Env) (bad : List PyTy) : Nat → Ty → PyTy → Bool
-  | 0, _, _ => false
-  | n + 1, T, A =>
-    !(isBad bad A) &&
-    (match T with
-     | .base b => b.mapped && hasAlt bad A (basePy b)
-     | .strLit s => hasAlt bad A .str || (alts A).any (fun u => match u with
-       | .literal vs => !(isBad bad u) && vs.contains s
-       | _ => false)
-     | .ref r =>
-       if r == n!"LSPAny" then hasAlt bad A .any
-       else if r == n!"LSPObject" then hasAlt bad A .obj
-       else if r == n!"LSPArray" then (alts A).any (fun u => match u with
-         | .seq x => !(isBad bad u) && !(isBad bad x) && hasAlt bad x .any
-         | _ => false)
-       else match M.findEnum r with
-         | some e => if e.custom then e.base.mapped && hasAlt bad A (basePy e.base) else hasAlt bad A (.enum r) && enumCovered M E r
-         | Option.none => match M.findStruct r with
-           | some _ => hasAlt bad A (.cls r)
-           | Option.none => match M.findAlias r with
-             | some a => annOK M E bad n a.ty A
-             | Option.none => false
-     | .array e => (alts A).any (fun u => match u with
-       | .seq x => !(isBad bad u) && annOK M E bad n e x
-       | _ => false)
-     | .map _ v => (alts A).any (fun u => match u with
-       | .dict .str x => !(isBad bad u) && annOK M E bad n v x
-       | _ => false)
-     | .tuple ts => (alts A).any (fun u => match u with
-       | .tuple us => !(isBad bad u) && all2 (annOK M E bad n) ts us
-       | _ => false)
-     | .or ts => ts.all (fun a => annOK M E bad n a A)
-     | .lit props => props.isEmpty && hasAlt bad A .any
-     | _ => false)
-
-/-! ### coverage of an object type by a generated class -/
+/-! ### nullability and validators (used by the class-level coverage) -/
 
 /-- may `null` be a valid value of the type?  (conservative: `true` when the fuel runs out) -/
 def nullish (M : Model) : Nat → Ty → Bool
@@ -198,24 +155,91 @@ def vldCoreOK (T : Ty) : Vld → Bool
 def vldOKFor (T : Ty) (optional : Bool) (vl : Vld) : Bool :=
   (!optional || vl.acceptsNone) && vldCoreOK T vl.core && (match vl with | .opt .none => false | _ => true)
 
-def linkFuel : Nat := 24
+/-! ### coverage of a metamodel type by an annotation -/
 
-def fieldCovers (M : Model) (E : Env) (bad : List PyTy) (p : Name × Bool × Ty) (f : Field) : Bool :=
-  annOK M E bad linkFuel p.2.2 f.ty &&
+def alts : PyTy → List PyTy
+  | .union us => us
+  | t => [t]
+
+def hasAlt (bad : List PyTy) (A t : PyTy) : Bool := !(isBad bad t) && (alts A).any (PyTy.eqb t)
+
+def Base.mapped : Base → Bool
+  | .regExp => false
+  | _ => true
+
+def enumCovered (M : Model) (E : Env) (r : Name) : Bool :=
+  match M.findEnum r, E.pkg.findEnum r with
+  | some e, some pe => e.values.all (fun ev => pe.members.any (·.2 == ev.value))
+  | _, _ => false
+
+def fieldCoversW (ann : Ty → PyTy → Bool) (M : Model) (E : Env) (bad : List PyTy) (nf : Nat) (p : Name × Bool × Ty) (f : Field) : Bool :=
+  ann p.2.2 f.ty &&
   (!p.2.1 || (f.dflt == Dflt.none && nullReads E bad f.ty)) &&
   (match f.dflt with
-   | .none => !(nullish M linkFuel p.2.2) || !f.omitU || f.ty.anyNull
+   | .none => !(nullish M nf p.2.2) || !f.omitU || f.ty.anyNull
    | .str _ => !f.omitU
    | _ => true) &&
   vldOKFor p.2.2 p.2.1 f.vld
 
-def clsCovers (M : Model) (E : Env) (bad : List PyTy) (props : List (Name × Bool × Ty)) (cl : Cls) : Bool :=
+def clsCoversW (ann : Ty → PyTy → Bool) (M : Model) (E : Env) (bad : List PyTy) (nf : Nat) (props : List (Name × Bool × Ty)) (cl : Cls) : Bool :=
   !(isBad bad (.cls cl.name)) &&
   props.all (fun p => cl.fields.any (·.wireS == p.1)) &&
   cl.fields.all (fun f => match props.find? (fun p => p.1 == f.wireS) with
-    | some p => fieldCovers M E bad p f
+    | some p => fieldCoversW ann M E bad nf p f
     -- an attribute without a property (the `params` of a message that has none): never fed, must default to a typed None
     | Option.none => f.dflt == Dflt.none && nullReads E bad f.ty && f.vld.acceptsNone)
+
+/-- an object type with an explicit (non-empty) property list — an anonymous literal, an `and` type — is covered by a generated class -/
+def objCovered (ann : Ty → PyTy → Bool) (M : Model) (E : Env) (bad : List PyTy) (nf : Nat) (props : List (Name × Bool × Ty)) (A : PyTy) : Bool :=
+  (alts A).any (fun u => match u with
+    | .cls c => !(isBad bad u) && (match E.pkg.findCls c with
+      | some cl => clsCoversW ann M E bad nf props cl
+      | Option.none => false)
+    | _ => false)
+
+def annOK (M : Model) (E : Env) (bad : List PyTy) : Nat → Ty → PyTy → Bool
+  | 0, _, _ => false
+  | n + 1, T, A =>
+    !(isBad bad A) &&
+    (match T with
+     | .base b => b.mapped && hasAlt bad A (basePy b)
+     | .strLit s => hasAlt bad A .str || (alts A).any (fun u => match u with
+       | .literal vs => !(isBad bad u) && vs.contains s
+       | _ => false)
+     | .ref r =>
+       if r == n!"LSPAny" then hasAlt bad A .any
+       else if r == n!"LSPObject" then hasAlt bad A .obj
+       else if r == n!"LSPArray" then (alts A).any (fun u => match u with
+         | .seq x => !(isBad bad u) && !(isBad bad x) && hasAlt bad x .any
+         | _ => false)
+       else match M.findEnum r with
+         | some e => if e.custom then e.base.mapped && hasAlt bad A (basePy e.base) else hasAlt bad A (.enum r) && enumCovered M E r
+         | Option.none => match M.findStruct r with
+           | some _ => hasAlt bad A (.cls r)
+           | Option.none => match M.findAlias r with
+             | some a => annOK M E bad n a.ty A
+             | Option.none => false
+     | .array e => (alts A).any (fun u => match u with
+       | .seq x => !(isBad bad u) && annOK M E bad n e x
+       | _ => false)
+     | .map _ v => (alts A).any (fun u => match u with
+       | .dict .str x => !(isBad bad u) && annOK M E bad n v x
+       | _ => false)
+     | .tuple ts => (alts A).any (fun u => match u with
+       | .tuple us => !(isBad bad u) && all2 (annOK M E bad n) ts us
+       | _ => false)
+     | .or ts => ts.all (fun a => annOK M E bad n a A)
+     | .lit props => if props.isEmpty then hasAlt bad A .any else objCovered (annOK M E bad n) M E bad n props A
+     | .and ts => !(andProps M ts).isEmpty && objCovered (annOK M E bad n) M E bad n (andProps M ts) A
+     | _ => false)
+
+def linkFuel : Nat := 24
+
+def fieldCovers (M : Model) (E : Env) (bad : List PyTy) (p : Name × Bool × Ty) (f : Field) : Bool :=
+  fieldCoversW (annOK M E bad linkFuel) M E bad linkFuel p f
+
+def clsCovers (M : Model) (E : Env) (bad : List PyTy) (props : List (Name × Bool × Ty)) (cl : Cls) : Bool :=
+  clsCoversW (annOK M E bad linkFuel) M E bad linkFuel props cl
 
 def structCovers (M : Model) (E : Env) (bad : List PyTy) (s : Struct) : Bool :=
   match E.pkg.findCls s.name with
